@@ -33,7 +33,7 @@ func (sel *Selection) Find(path string) (*Selection, error) {
 		if err != nil {
 			return nil, err
 		}
-		if err = BuildConstraints(s, u.Query()); err != nil {
+		if err = BuildConstraints(s, queryValues(u.RawQuery)); err != nil {
 			return nil, err
 		}
 		p = p[:qmark]
@@ -102,4 +102,12 @@ func (sel *Selection) findSlice(segs []*Path) (*Selection, error) {
 		}
 	}
 	return p, nil
+}
+
+// queryValues parses a raw query. net/url drops every parameter that contains
+// a semicolon, but "fields=a;b" is how field lists are written (the escaped
+// %3B works either way)
+func queryValues(rawQuery string) url.Values {
+	values, _ := url.ParseQuery(strings.ReplaceAll(rawQuery, ";", "%3B"))
+	return values
 }
